@@ -81,10 +81,14 @@ def oracle(case, trace, ix, res):
                     res.label('timeout-cuts-never-ending-job')
 
 
-def evaluate(case):
+def evaluate_one(case):
     res = Result()
     trace, ix = run_case(case, run_on=False)
     shape_labels(case, trace, res)
     oracle(case, trace, ix, res)
     res.sample = dict(outcome=trace.outcome, t_end=trace.t_end, events=len(trace.events))
     return res
+
+
+from ._rt import with_variants                     # noqa: E402
+evaluate = with_variants(evaluate_one)
